@@ -58,6 +58,10 @@ func c10Transports() []c10Transport {
 		{"oaep-mgf1p-ripemd160", "oaep-mgf1p-nonsha1", oaep(xmlenc.RIPEMD160), xenc.KeyTransport{Alg: xenc.OAEPMGF1P, DigestURI: xmlenc.RIPEMD160.Algorithm()}, 20},
 		{"oaep11-sha256", "oaep11", func() *xmlenc.RSA { e := xmlenc.OAEP_SHA256(); return &e }, xenc.KeyTransport{Alg: xenc.OAEP11, DigestURI: xmlenc.SHA256.Algorithm()}, 32},
 		{"oaep11-sha512", "oaep11", func() *xmlenc.RSA { e := xmlenc.OAEP_SHA512(); return &e }, xenc.KeyTransport{Alg: xenc.OAEP11, DigestURI: xmlenc.SHA512.Algorithm()}, 64},
+		// the xmlenc11 constructors with the digest reassigned afterwards (the field is exported for that): what is declared is what is used
+		{"oaep11-constructor-sha256-reassigned-sha1", "oaep11", func() *xmlenc.RSA { e := xmlenc.OAEP_SHA256(); e.DigestMethod = xmlenc.SHA1; return &e }, xenc.KeyTransport{Alg: xenc.OAEP11, DigestURI: xmlenc.SHA1.Algorithm()}, 20},
+		{"oaep11-constructor-sha256-reassigned-sha512", "oaep11", func() *xmlenc.RSA { e := xmlenc.OAEP_SHA256(); e.DigestMethod = xmlenc.SHA512; return &e }, xenc.KeyTransport{Alg: xenc.OAEP11, DigestURI: xmlenc.SHA512.Algorithm()}, 64},
+		{"oaep11-constructor-sha512-reassigned-sha256", "oaep11", func() *xmlenc.RSA { e := xmlenc.OAEP_SHA512(); e.DigestMethod = xmlenc.SHA256; return &e }, xenc.KeyTransport{Alg: xenc.OAEP11, DigestURI: xmlenc.SHA256.Algorithm()}, 32},
 		{"pkcs1v15", "pkcs1v15", func() *xmlenc.RSA { e := xmlenc.PKCS1v15(); return &e }, xenc.KeyTransport{Alg: xenc.RSA15}, 0},
 	}
 }
